@@ -1517,6 +1517,13 @@ func (app *App) performSwitchover(clusterState map[string]*nodestate.NodeState, 
 		app.logger.Warn().Msgf("switchover: failed to update active nodes after switchover: %v", err)
 	}
 
+	// the steps since the last lock check (re-pointing replicas, recovery mark, semi-sync and
+	// active list update) may take long, especially when DCS stopped answering meanwhile:
+	// make sure we are still the manager before the irreversible step
+	if !app.AcquireLock(pathManagerLock) {
+		return errors.New("manger lock lost during switchover, new manager should finish the process, leaving")
+	}
+
 	// set new master writable
 	err = newMasterNode.SetWritable()
 	if err != nil || app.emulateError("promote_set_writable") {
